@@ -19,13 +19,20 @@ ID = 'C10'
 BOUNDS = {
     'quick': 'Nthread in 1..6 x (hosts H, particles P) in {(0,0),(1,0),(1,1),(2,1),(3,0),(1,2)} (incl. more threads than hosts, not '
              'divisible, empty tables) x tracer sets {LRG}, {LRG,ELG}; fast_concatenate for N1,N2 in 0..4 x Nthread 1..6; '
-             '_searchsorted_parallel for 0..3 sorted ids x 0..3 needles; all values free reals/ints',
-    'thorough': 'quick plus (H,P) in {(3,1),(2,2),(4,0)}, tracer set {ELG,QSO}, {LRG,ELG,QSO}; fast_concatenate N up to 6, Nthread up to 8',
+             '_searchsorted_parallel for 0..3 sorted ids x 0..3 needles; all values free reals/ints; '
+             'IEEE-754 schedule lemma (symnb.fpsched): per-thread host blocks of gen_cent for Nthread in {3,7,11,13} and of gen_sats for Nthread in '
+             '{5,11,14} tile the table for EVERY table length in [0, 2^31] under float64 round-to-nearest arithmetic',
+    'thorough': 'quick plus (H,P) in {(3,1),(2,2),(4,0)}, tracer set {ELG,QSO}, {LRG,ELG,QSO}; fast_concatenate N up to 6, Nthread up to 8; '
+                'schedule lemma for every Nthread in 1..16 and {24,32,48,64} (gen_cent, gen_sats), and for fast_concatenate\'s proportional '
+                'thread split with Nthread 2 (lengths <= 1024) and 3 (lengths <= 255)',
 }
-OUTSIDE = 'thread counts above 6 (8 thorough) and table sizes above the bound (the block structure hstart/gstart repeats); "bitwise" is ' \
-          'term identity in the real model; numba\'s scheduler'
-STUBS = hodlib.__doc__ and ['occupation functions: uninterpreted non-negative functions', 'np.searchsorted: #{a_j < v} on sorted input (contract)']
-ASSUMPTIONS = ['floats are reals', 'randoms not on a slice edge', 'halo ids sorted increasingly for the particle lookup']
+OUTSIDE = 'per-element behaviour for thread counts above 6 (8 thorough) and table sizes above the bound (the block structure hstart/gstart repeats; ' \
+          'the block boundaries themselves are covered for all lengths by the schedule lemma); "bitwise" is term identity in the real model; ' \
+          'numba\'s scheduler; fastmath reassociation of the schedule expressions'
+STUBS = hodlib.__doc__ and ['occupation functions: uninterpreted non-negative functions', 'np.searchsorted: #{a_j < v} on sorted input (contract)',
+                            'schedule lemma: np.linspace as implemented by numba on Float64 terms; element loops recorded as intervals, not iterated']
+ASSUMPTIONS = ['floats are reals (per-element obligations); IEEE-754 double with round-to-nearest-even for the schedule lemma', 'randoms not on a slice edge',
+               'halo ids sorted increasingly for the particle lookup']
 MUST_COVER = {'abacusnbody.hod.GRAND_HOD.fast_concatenate': 0, 'abacusnbody.hod.abacus_hod._searchsorted_parallel': 0,
               'abacusnbody.hod.GRAND_HOD.gen_cent': 60, 'abacusnbody.hod.GRAND_HOD.gen_sats': 60}   # rsd / QSO branches are C09's
 FUNCS = [gh.gen_cent, gh.gen_sats, gh.fast_concatenate, gh.gen_gals, ah._searchsorted_parallel]
@@ -109,6 +116,14 @@ def items(tier, seed):
     for nt in range(1, tmax + 1):
         out.append(dict(name=f'concat/Nthread={nt}', kind='concat', nt=nt, nmax=nmax))
     out.append(dict(name='search', kind='search'))
+    from checks import schedlib
+    if tier == 'quick':
+        out += schedlib.items(['gen_cent'], [3, 7, 11, 13]) + schedlib.items(['gen_sats'], [5, 11, 14])
+    else:
+        nts = list(range(1, 17)) + [24, 32, 48, 64]
+        out += schedlib.items(['gen_cent', 'gen_sats'], nts)
+        out += [dict(name='fpsched/fast_concatenate/Nthread=2', kind='fpsched', target='fast_concatenate', nthread=2, lmax=1024),
+                dict(name='fpsched/fast_concatenate/Nthread=3', kind='fpsched', target='fast_concatenate', nthread=3, lmax=255)]
     return out
 
 
@@ -126,6 +141,9 @@ def run(item):
             acc['samples'] = (acc['samples'] + r['samples'])[:3]
             acc['assumptions'] = sorted(set(acc['assumptions']) | set(r['assumptions']))
             harness.merge_cov(acc['cov'], r['cov'])
+    if item['kind'] == 'fpsched':
+        from checks import schedlib
+        return schedlib.run(item)
     if item['kind'] == 'gals':
         return common.run_paths(lambda: body(item['H'], item['P'], tuple(item['tracers']), item['nt']), cov_funcs=FUNCS, max_paths=60000)[0]
     if item['kind'] == 'concat':
@@ -140,7 +158,8 @@ def run(item):
 
 
 def validate(tier):
-    n = hodlib.validate()
+    from checks import schedlib
+    n = hodlib.validate() + schedlib.validate()
     a = real_np.array([1, 4, 9, 12], dtype=real_np.int64)
     b = real_np.array([9, 0, 13, 4, 5], dtype=real_np.int64)
     ref = ah._searchsorted_parallel(a, b)
@@ -160,6 +179,9 @@ def validate(tier):
 
 def replay(e, path):
     i = e['info'].get('case', {})
+    if i.get('kind') == 'fpsched':
+        from checks import schedlib
+        return schedlib.replay(e, path)
     if i.get('kind') in ('concat', 'search'):
         m = e.get('model', {})
         body_ = f'''
